@@ -99,6 +99,13 @@ func (ns *namedRouteSpec) register(router *rux.Router) {
 		rec := recOf(c)
 		rec.Route = id
 		rec.Params = copyParams(c.Params)
+		// the handler then works on its parameters in place (normalises them, adds a derived one): its own map
+		for k := range c.Params {
+			c.Params[k] = "normalised-by-the-handler-of-an-earlier-request"
+		}
+		if c.Params != nil {
+			c.Params["derived-by-an-earlier-request"] = "x"
+		}
 		c.WriteString(id)
 	}
 	switch ns.API {
@@ -117,7 +124,7 @@ func (ns *namedRouteSpec) register(router *rux.Router) {
 }
 
 func runC15(e *Env) {
-	e.Rule = "named routes without optional parts (static, 1..3 variables: default, \\d+, [a-z]+, \\d{2}, .+ as last; literal text between and around variables; also variable-first routes whose values spell the literal first segment of a sibling route; numeric values passed as int/int64/uint) registered through each naming API (AddNamed, NewNamedRoute+AddRoute, NamedRoute+AttachTo, GET+NamedTo), with re-registrations and re-namings under the same name; values drawn from hostile pools that satisfy the class (blanks, non-ASCII, %, %2F, ?, #, +, &, text that looks like another placeholder, $1, dots); extra non-variable arguments; three argument styles (M, key/value pairs, *BuildRequestURL with Params+Queries). Oracle (round trip): BuildURL -> String() -> url.ParseRequestURI -> Match and ServeHTTP must select the route most recently registered under the name with params == the supplied values, the query must contain exactly the extra arguments, GetRoute(name) must be that route. Each assignment is built 6 times (map iteration order is part of the input). Non-trivial: a value with a character that needs escaping or that looks like a placeholder, >= 2 variables, or a re-registered name; distinct by (route, assignment, style). Also: an older route of a re-registered name is renamed to a new name (the old name keeps its latest registration); regex classes containing a colon."
+	e.Rule = "named routes without optional parts (static, 1..3 variables: default, \\d+, [a-z]+, \\d{2}, .+ as last; literal text between and around variables; also variable-first routes whose values spell the literal first segment of a sibling route; numeric values passed as int/int64/uint) registered through each naming API (AddNamed, NewNamedRoute+AddRoute, NamedRoute+AttachTo, GET+NamedTo), with re-registrations and re-namings under the same name; values drawn from hostile pools that satisfy the class (blanks, non-ASCII, %, %2F, ?, #, +, &, text that looks like another placeholder, $1, dots); extra non-variable arguments; three argument styles (M, key/value pairs, *BuildRequestURL with Params+Queries). Oracle (round trip): BuildURL -> String() -> url.ParseRequestURI -> Match and ServeHTTP must select the route most recently registered under the name with params == the supplied values, the query must contain exactly the extra arguments, GetRoute(name) must be that route. Each assignment is built 6 times (map iteration order is part of the input). Non-trivial: a value with a character that needs escaping or that looks like a placeholder, >= 2 variables, or a re-registered name; distinct by (route, assignment, style). Also: an older route of a re-registered name is renamed to a new name (the old name keeps its latest registration); regex classes containing a colon. The route handlers edit their Params map in place after recording it (with a route cache the same URL is requested up to six times)."
 	e.Assumptions = []string{
 		"values whose leading/trailing white space or trailing '/' would land at the very end of the path are excluded: path normalisation (C11) removes them by design",
 		"path variables are addressed as \"{name}\" keys, other keys are query arguments (documented calling convention)",
